@@ -121,7 +121,9 @@ pub fn run_isolated(prop: &Arc<dyn Property>, seed: u64, case: &Value, keep_hist
             entropy::seed_thread(seed);
             IN_SIM.with(|c| c.set(true));
             let ctx = Ctx::new(keep_history);
+            super::set_current(Some(ctx.clone()));
             let r = panic::catch_unwind(AssertUnwindSafe(|| prop2.execute(&case2, &ctx)));
+            super::set_current(None);
             IN_SIM.with(|c| c.set(false));
             entropy::clear_thread();
             let panics: Vec<(String, String)> = PANICS.with(|p| std::mem::take(&mut *p.borrow_mut()));
